@@ -239,12 +239,14 @@ def work_fixed(case):
 def run_fixed(chk, tier, replay_set=None):
     layouts.gen_tla(os.path.join(common.SPECS, "SourceForm_gen.tla"))
     sets = [s for s in layouts.SETS if replay_set is None or s[0] == replay_set]
-    mb, mx, cc = (2, 1, "CC2") if tier == "quick" else (2, 2, "CC5")
+    mb, mx, cc = (2, 1, "CC2") if tier == "quick" else (2, 1, "CC3")       # (thorough with 14 continuation characters and two extras ran out of memory)
     jobs = []
     for name, stmts, ctx in sets:
         if tier == "quick":
             # a trailing comment on a continued line and one at the end need two extras: one break with two extras, or two breaks with one
             mb, mx = ((1, 2) if name[-1] in "13579" else (2, 1)) if len(stmts) == 1 else (2, 1)
+        else:
+            mb, mx = (2, 2) if len(stmts) == 1 else (2, 1)
         cfg = "_FixedForm_%s_%s.cfg" % (name, tier)
         with open(os.path.join(common.SPECS, cfg), "w") as f:
             f.write("SPECIFICATION Spec\nCONSTANTS\n  Stmts <- %s\n  MaxBreaks = %d\n  MaxExtras = %d\n  ContChars <- %s\nINVARIANT RoundTrip\nCONSTRAINT Dump\n" % (name, mb, mx, cc))
